@@ -3,6 +3,7 @@ package exec
 import (
 	"fmt"
 	"go/types"
+	"sync"
 
 	"golang.org/x/tools/go/ssa"
 
@@ -41,6 +42,8 @@ type Sched struct {
 	quiescent   bool
 	trace       []string
 	lockset     *Lockset
+	noYield     int
+	wg          sync.WaitGroup
 }
 
 type lockState struct {
@@ -77,13 +80,14 @@ func (ex *Exec) curG() *G {
 func (s *Sched) abortAll() {
 	s.aborted = true
 	for _, g := range s.gs {
-		if g != s.cur && !g.done {
+		if g.id != 0 && !g.done {
 			select {
 			case g.wake <- struct{}{}:
 			default:
 			}
 		}
 	}
+	s.wg.Wait()
 }
 
 type abortG struct{}
@@ -94,7 +98,9 @@ func (ex *Exec) goStmt(fr *Frame, fv Value, args []Value) {
 	g := &G{id: len(s.gs), wake: make(chan struct{}, 1)}
 	g.name = fmt.Sprintf("g%d", g.id)
 	s.gs = append(s.gs, g)
+	s.wg.Add(1)
 	go func() {
+		defer s.wg.Done()
 		<-g.wake
 		defer func() {
 			r := recover()
@@ -190,7 +196,7 @@ func (s *Sched) pick(cur *G) *G {
 // yield is a scheduling point for the running goroutine.
 func (ex *Exec) yield(what string) {
 	s := ex.st.sched
-	if s == nil {
+	if s == nil || s.noYield > 0 {
 		return
 	}
 	cur := s.cur
@@ -252,6 +258,27 @@ func (ex *Exec) block(what string, canRun func() bool) {
 		}
 		s.switchTo(cur, next)
 	}
+}
+
+// waitQuiescent parks main until no other goroutine can make progress.
+func (ex *Exec) waitQuiescent() {
+	s := ex.st.sched
+	if s == nil {
+		return
+	}
+	main := s.gs[0]
+	ex.block("WaitQuiescent", func() bool {
+		for _, g := range s.gs[1:] {
+			if g.done {
+				continue
+			}
+			if g.canRun == nil || g.canRun() {
+				return false
+			}
+		}
+		return true
+	})
+	_ = main
 }
 
 // finishMain runs the remaining goroutines to completion after the harness returned.
